@@ -65,7 +65,7 @@ type obs struct {
 	St   int             `json:"st"`
 	Body string          `json:"body"`
 	Ct   string          `json:"ct"`
-	Xh   string          `json:"xh"`
+	Xh   []string        `json:"xh"`
 	Loc  string          `json:"loc"`
 	Auth bool            `json:"auth"`
 	Enc  bool            `json:"enc"`
@@ -232,7 +232,7 @@ func lineText(id string, fx *fixture, accessLog, errLog string) string {
 	case "hd2":
 		return "header /secret X-H two"
 	case "hd3":
-		return "header / -Vary"
+		return "header / {\n\t\t-Vary\n\t\t+X-H plus\n\t}"
 	case "pp":
 		return "pprof"
 	case "err":
@@ -541,7 +541,7 @@ func ctClass(ct string) string {
 var logRe = regexp.MustCompile(`^(L\d) \S+ \S+ \S+ (\d+) \S+$`)
 
 func abstract(f full) obs {
-	o := obs{St: f.Status, Body: bodyToken(f.Body), Ct: ctClass(f.Header.Get("Content-Type")), Xh: strings.Join(f.Header.Values("X-H"), ","),
+	o := obs{St: f.Status, Body: bodyToken(f.Body), Ct: ctClass(f.Header.Get("Content-Type")), Xh: f.Header.Values("X-H"),
 		Loc: f.Header.Get("Location"), Auth: f.Header.Get("Www-Authenticate") != "", Enc: f.Header.Get("Content-Encoding") == "gzip",
 		Tpl: strings.Contains(f.Body, "[GET]") || strings.Contains(f.Body, "[OPTIONS]"), Hits: f.Hits,
 		Vary: strings.Contains(strings.Join(f.Header.Values("Vary"), ","), "Accept-Encoding")}
@@ -588,7 +588,7 @@ func diffObs(exp, got obs) []string {
 	if exp.Ct != "any" && exp.Ct != got.Ct {
 		d = append(d, "content-type")
 	}
-	if exp.Xh != got.Xh {
+	if strings.Join(exp.Xh, ",") != strings.Join(got.Xh, ",") {
 		d = append(d, "x-h")
 	}
 	if exp.Loc != got.Loc {
@@ -661,6 +661,50 @@ type checker struct {
 	insts   int
 	reqs    int
 	self    int // selftest: corrupted expectations noticed
+	// drift: pool lines whose one-line block (root + the line, nothing to reorder) already answers
+	// differently from the model - the model of that middleware is out of date (somebody changed
+	// what the middleware does); a mismatch in a block containing such a line says nothing about
+	// ORDER and is reported as infrastructure trouble, not as a violation
+	drift map[string]string
+}
+
+// drifted returns the drift note of the first line of the block whose own model is stale.
+func (c *checker) drifted(block []string) string {
+	c.mu.Lock()
+	defer c.mu.Unlock()
+	for _, l := range block {
+		if n, ok := c.drift[l]; ok {
+			return n
+		}
+	}
+	return ""
+}
+
+// findDrift runs every one-line block in its only order and compares with the model.
+func (c *checker) findDrift(rn *runner, blocks []*tcase) {
+	c.drift = map[string]string{}
+	for _, tc := range blocks {
+		if len(tc.Block) > 2 {
+			continue
+		}
+		got, _, err := rn.run(tc.Block, c.battery, nil)
+		if err != nil {
+			c.setInfra(err)
+			return
+		}
+		for i := range got {
+			if d := diffObs(tc.Exp[i], abstract(got[i])); len(d) > 0 {
+				// once more on a fresh instance
+				again, _, err := rn.run(tc.Block, c.battery, []int{i})
+				if err != nil || len(diffObs(tc.Exp[i], abstract(again[0]))) == 0 {
+					continue
+				}
+				c.drift[tc.Block[len(tc.Block)-1]] = fmt.Sprintf("block %v alone answers %v with %+v, the model says %+v (%s)",
+					tc.Block, c.battery[i], abstract(again[0]), tc.Exp[i], strings.Join(d, ", "))
+				break
+			}
+		}
+	}
 }
 
 func (c *checker) setInfra(err error) {
@@ -770,6 +814,10 @@ func (c *checker) confirmModel(rn *runner, block, order []string, i int, exp obs
 		return false
 	}
 	q := c.battery[i]
+	if note := c.drifted(block); note != "" {
+		c.setInfra(fmt.Errorf("the model of a middleware is out of date, not an ordering verdict: %s", note))
+		return false
+	}
 	c.res.Add(hx.Mismatch{
 		Key:  fmt.Sprintf("C09/model/block=%s/order=%s/req=%s/%s", ids(block), ids(order), reqKey(q), d[0]),
 		What: fmt.Sprintf("answer to %v is not what the documented directive order yields (%s differs): block %v written as %v", q, strings.Join(d, ", "), block, order),
@@ -843,6 +891,10 @@ func (c *checker) checkPair(rn *runner, tc *tcase) {
 		return
 	}
 	if len(diffObs(*row.Canon, abstract(a2[0]))) == 0 {
+		return
+	}
+	if note := c.drifted(row.Block); note != "" {
+		c.setInfra(fmt.Errorf("the model of a middleware is out of date, not an ordering verdict: %s", note))
 		return
 	}
 	like := ""
@@ -1012,6 +1064,11 @@ func TestC09(t *testing.T) {
 	}
 	res.AddExtra("blocks_from_tlc", len(blocks))
 	res.AddExtra("blocks_replayed", len(todo))
+
+	if !hx.SelfTest() {
+		c.findDrift(newRunner(t, fx, 99), blocks)
+		res.AddExtra("lines_with_stale_model", len(c.drift))
+	}
 
 	type job struct {
 		tc     *tcase
